@@ -11,10 +11,11 @@ Open Scope nat_scope.
 
 (* o.pluck(k1, ...) on an object receiver: a NEW object (id = the next free id) holding
    exactly the keys to_str k (duplicates collapse: the object is an association list
-   maintained by assoc_set), each with [pluck_value]: the receiver's own value, else the
-   prototype's method for the names "length"/"pluck" (Go's GetMember falls back to the
-   prototype), else null.  The receiver and everything else is unchanged ([heap_ext]).
-   An error iff some key is neither a string nor a number (GetMember errs). *)
+   maintained by assoc_set), each with [pluck_value]: the receiver's OWN value for an own
+   key, null for every key that is not an own key (also for the method names "length" and
+   "pluck": after fix of the C16 defect the prototype is not consulted).  The receiver and
+   everything else is unchanged ([heap_ext]).  An error iff some key is neither a string nor
+   a number (GetMember errs). *)
 Theorem pluck_spec : forall s pa oid0 args,
   load (hp s) pa = VObj oid0 -> wf_obj (hp s) oid0 ->
   let oid := next (hp s) in
@@ -34,12 +35,11 @@ Print Assumptions pluck_spec.
 
 Theorem pluck_value_cases : forall h oid0 k,
   (forall c, assoc_get (to_str k) (get_obj h oid0) = Some c -> pluck_value h oid0 k = load h c) /\
-  (assoc_get (to_str k) (get_obj h oid0) = None -> obj_proto (to_str k) = None ->
-   pluck_value h oid0 k = VNil None).
+  (assoc_get (to_str k) (get_obj h oid0) = None -> pluck_value h oid0 k = VNil None).
 Proof.
   intros h oid0 k. unfold pluck_value. split.
   - intros c ->. reflexivity.
-  - intros -> ->. reflexivity.
+  - intros ->. reflexivity.
 Qed.
 Print Assumptions pluck_value_cases.
 
@@ -63,20 +63,15 @@ Proof.
   - vm_compute. repeat split; reflexivity.
 Qed.
 
-(* FINDING (minor): "null for absent keys" is false for the two prototype method names:
-   {}.pluck("length") holds the native method, not null *)
-Theorem pluck_absent_key_null_refuted :
-  exists h pa oid0 k,
-    load h pa = VObj oid0 /\ wf_obj h oid0 /\ assoc_get (to_str k) (get_obj h oid0) = None /\
-    pluck_value h oid0 k <> VNil None /\
-    (let '(r, s') := native_call NPluck [k] (Some pa) (st_of h) in
-     r = Ok (NVal (VObj (next h))) /\ obj_view (hp s') (next h) = [(bs "length", VNative NObjLength None)]).
-Proof.
-  exists (fst ex_obj2), (snd ex_obj2), 4%positive, (VStr (bs "length")).
-  split; [vm_compute; reflexivity|]. split; [split; [vm_compute; reflexivity|vm_compute; repeat constructor]|].
-  vm_compute. repeat split; try reflexivity. discriminate.
-Qed.
-Print Assumptions pluck_absent_key_null_refuted.
+(* the method names are ordinary absent keys: {a, b}.pluck("length", "pluck") = {"length": null, "pluck": null} *)
+Example pluck_method_names_ex :
+  let h := fst ex_obj2 in let pa := snd ex_obj2 in
+  assoc_get (bs "length") (get_obj h 4) = None /\
+  pluck_value h 4 (VStr (bs "length")) = VNil None /\
+  (let '(r, s') := native_call NPluck [VStr (bs "length"); VStr (bs "pluck")] (Some pa) (st_of h) in
+   r = Ok (NVal (VObj 6)) /\
+   obj_view (hp s') 6 = [(bs "length", VNil None); (bs "pluck", VNil None)]).
+Proof. vm_compute. repeat split; reflexivity. Qed.
 
 (* ---------------------------------------------------------------- totality *)
 
@@ -95,6 +90,11 @@ Theorem sort_panic_iff : forall args this s,
   exists pa, this = Some pa /\ forallb copyable (contents (hp s) (load (hp s) pa)) = false.
 Proof. exact Methods.sort_panic_iff. Qed.
 Print Assumptions sort_panic_iff.
+
+Example sort_panic_iff_ex :
+  forallb copyable (contents ex_h (load ex_h ex_pa)) = true /\
+  fst (native_call NSort [] (Some ex_pa) (st_of ex_h)) <> Panic.
+Proof. vm_compute. split; [reflexivity|discriminate]. Qed.
 
 (* the precondition is not vacuous: an array holding a function makes sort panic *)
 Definition ex_fn_arr : heap * addr :=
@@ -143,6 +143,12 @@ Theorem arity_errors : forall pa s,
   (forall this, native_call NPrintf [] this s = (Ok NError, s)).
 Proof. exact Methods.arity_errors. Qed.
 Print Assumptions arity_errors.
+
+Example arity_errors_ex :
+  fst (native_call NPush [] (Some ex_pa) (st_of ex_h)) = Ok NError /\
+  fst (native_call NPop [VNil None] (Some ex_pa) (st_of ex_h)) = Ok NError /\
+  fst (native_call NNum [] None (st_of ex_h)) = Ok NError.
+Proof. vm_compute. repeat split; reflexivity. Qed.
 
 (* ---------------------------------------------------------------- floor / ceil / round *)
 
